@@ -86,6 +86,15 @@ pub fn actions() -> Vec<Action> {
     let mut badaddr = args.clone();
     badaddr.insert("r".into(), ArgValue::Address(vec![1, 2, 3, 4, 5]));
     v.push(Action { name: "fails-in-compile", tx: lower(&outputs_src(2, None)), args: badaddr, direct: false });
+    // a transaction whose first output carries a 1000-byte inline datum: as history it leaves a body whose
+    // output 0 is far larger than anything the other templates produce
+    let big = "party S;\nparty R;\ntx t(q: Int, blob: Bytes) {\n    input src {\n        from: S,\n        min_amount: fees + Ada(q),\n    }\n    output o0 {\n        to: R,\n        amount: Ada(q),\n        datum: blob,\n    }\n    output o1 {\n        to: S,\n        amount: src - fees - Ada(q),\n    }\n}\n";
+    let mut big_args = args.clone();
+    big_args.insert("blob".into(), ArgValue::Bytes(vec![0x42; 1000]));
+    v.push(Action { name: "2-outputs-1000-byte-datum", tx: lower(big), args: big_args, direct: false });
+    // min_utxo inside the input threshold: the first-round estimate decides whether the input resolves at all
+    let thr = "party S;\nparty R;\ntx t(q: Int) {\n    input src {\n        from: S,\n        min_amount: fees + min_utxo(small) + min_utxo(change),\n    }\n    output small {\n        to: R,\n        amount: min_utxo(small),\n    }\n    output change {\n        to: S,\n        amount: src - fees - min_utxo(small),\n    }\n}\n";
+    v.push(Action { name: "min_utxo-in-threshold", tx: lower(thr), args: args.clone(), direct: false });
     // the instance may also have been used to compile constant templates directly
     let constant = crate::gen::tirgen::place(5, tir::Expression::None);
     let mut no_outputs = constant.clone();
@@ -99,16 +108,20 @@ fn store(which: usize) -> Vec<Utxo> {
     let a = base_address(1, 0);
     match which {
         0 => vec![tirb::utxo(UtxoRef { txid: vec![0x11; 32], index: 0 }, &a, CanonicalAssets::from_naked_amount(80_000_000))],
-        _ => vec![
+        1 => vec![
             tirb::utxo(UtxoRef { txid: vec![0x12; 32], index: 3 }, &a, CanonicalAssets::from_naked_amount(500_000_000_000)),
         ],
+        // tight funds: enough for every template sized from its own body, not for one sized from a fat foreign body
+        _ => vec![tirb::utxo(UtxoRef { txid: vec![0x13; 32], index: 0 }, &a, CanonicalAssets::from_naked_amount(3_000_000))],
     }
 }
 
 fn pp(which: usize) -> PP {
     match which {
         0 => PP { extra_fees: None, ..PP::default() },
-        _ => PP { coefficient: 1, constant: 2, coins_per_utxo_byte: 1, extra_fees: Some(0), ..PP::default() },
+        1 => PP { coefficient: 1, constant: 2, coins_per_utxo_byte: 1, extra_fees: Some(0), ..PP::default() },
+        // min_utxo of a small output straddles a CBOR integer width boundary: the fee map has two fixed points
+        _ => PP { extra_fees: None, coins_per_utxo_byte: 331, ..PP::default() },
     }
 }
 
@@ -271,8 +284,8 @@ impl Prop for C20 {
         format!(
             "explicit-state breadth-first search whose transition function is the implementation: state = history of resolutions replayed on a fresh \
              tx3_cardano::Compiler, state key = bytes of Compiler.latest_tx_body (the other fields are asserted unchanged at every transition); alphabet of \
-             11 actions (9 resolutions (templates with 0, 1, 2, 5 outputs, min_utxo of the first / last output, one failing in reduce, one with InputNotResolved, one \
-             failing in compile; 2 direct Compiler::compile calls on constant templates); depth {} ; 2 stores x 2 protocol-parameter sets (separate models). In every state every action is resolved on a replica \
+             13 actions (11 resolutions (templates with 0, 1, 2, 5 outputs, min_utxo of the first / last output, one failing in reduce, one with InputNotResolved, one \
+             failing in compile; 2 direct Compiler::compile calls on constant templates); depth {} ; 3 stores (ample, huge, tight) x 3 protocol-parameter sets (separate models). In every state every action is resolved on a replica \
              and its outcome (payload, hash, fee | error kind | panic) compared with the outcome on a fresh instance (itself reproduced 3 times). Every \
              transition executes the real resolve_tx, so model and implementation cannot diverge.",
             if tier.is_thorough() { 4 } else { 3 }
@@ -289,8 +302,8 @@ impl Prop for C20 {
     }
     fn enumerate(&self, tier: Tier, sink: &mut Sink) {
         let depth = if tier.is_thorough() { 4 } else { 3 };
-        for s in 0..2 {
-            for p in 0..2 {
+        for s in 0..3 {
+            for p in 0..3 {
                 sink.case(|| json!({"kind": "model", "store": s, "pparams": p, "depth": depth}));
             }
         }
